@@ -63,6 +63,26 @@ def with_raw_fields(mod, name, v, mraw, draw):
     return []
 
 
+def boundary_tails(mod, v):
+    """v with everything behind each cut set to 9...9 / 0...0 and the last character searched for a valid completion:
+    numbers that sit on the last / first code of a registry range (where an off-by-one in a range comparison shows)."""
+    out = []
+    if not v.isascii() or len(v) < 4:
+        return out
+    for fill in '90':
+        for k in range(1, len(v) - 1):
+            t = v[:k] + ''.join(fill if c.isdigit() else c for c in v[k:-1])
+            for d in '0123456789X':
+                u = t + d
+                try:
+                    if u != v and u not in out and mod.is_valid(u) is True and mod.validate(u) == u:
+                        out.append(u)
+                        break
+                except Exception:
+                    pass
+    return out
+
+
 def with_date(mod, name, v, date, rnd):
     """v with its date digits replaced and the trailing characters searched for a valid completion."""
     if name not in POS or not v.isascii():
@@ -136,6 +156,8 @@ def worker(unit, emit):
         for mraw, draw in ((None, 32), (None, 39), (None, 72), (None, 87), (None, 94), (13, None), (19, None), (33, None), (53, None), (73, None),
                            (93, None), (0, None), (None, 0)):
             extra += with_raw_fields(mod, name, v, mraw, draw)
+    for v in vals[:2]:
+        extra += boundary_tails(mod, v)
     # unknown registry prefixes
     if name == 'imsi':
         extra += [x for x in ('467071234567890', '999991234567890', '001011234567890', '310599123456789') if mod.is_valid(x)]
